@@ -43,19 +43,19 @@ func Verif_C20_signature_messages() {
 	switch verif_choice("msg", 3) {
 	case 0:
 		msg := &types.MsgStoreSignature{Creator: creator, StorageKey: verif_str("storageKey"), SignatureJSON: verif_str("sigJSON")}
-		if msg.ValidateBasic() == nil {
+		if verifC20Run(msg.ValidateBasic) {
 			_, _ = ms.StoreSignature(g, msg)
 			verif_reach("handler ran")
 		}
 	case 1:
 		msg := &types.MsgPublishReferencePayloadLink{Creator: creator, Key: verif_str("key"), Value: verif_str("value")}
-		if msg.ValidateBasic() == nil {
+		if verifC20Run(msg.ValidateBasic) {
 			_, _ = ms.PublishReferencePayloadLink(g, msg)
 			verif_reach("handler ran")
 		}
 	case 2:
 		msg := &types.MsgCreateAccount{Creator: creator, AccAddressString: verif_str_in("accAddr", sAddrPool...), PubKeyString: verif_str("pubKeyJSON")}
-		if msg.ValidateBasic() == nil {
+		if verifC20Run(msg.ValidateBasic) {
 			_, _ = ms.CreateAccount(g, msg)
 			verif_reach("handler ran")
 		}
@@ -119,4 +119,14 @@ func Verif_C20_signature_queries() {
 		}
 	}
 	verif_reach("query ran")
+}
+
+// A handler is exercised when basic validation passes and also when it is called directly, whatever basic validation would say
+// (handlers are reachable without ValidateBasic from other modules and from tests; they carry their own guards). In the direct
+// mode ValidateBasic is not run at all, so its branches do not multiply the handler's.
+func verifC20Run(basic func() error) bool {
+	if verif_choice("handlerCalledDirectly", 2) == 1 {
+		return true
+	}
+	return basic() == nil
 }
